@@ -7,7 +7,7 @@ ID = 'C08'
 CHECK = {
  'title': 'Sensor smoothing stays within observed readings, converges, ignores failed reads',
  'level': 'fault_enumeration',
- 'technique': 'exhaustive enumeration of reading/fault sequences through the real initializeSensors seeding and updateSensor monitor path on real hwmon/file/cmd sensors',
+ 'technique': 'exhaustive enumeration of reading/fault sequences through the real initializeSensors seeding and updateSensor monitor path on real hwmon/file/cmd sensors; plus choice-tape DFS (deviation bound) over the interleavings of overlapping polls of the real sensorMonitor.Run under a controlled scheduler (scheduling points at the sensor lock operations)',
  'rule': 'monitor loop: the real sensorMonitor.Run with slow reads (0..800 virtual ms at a 200 ms polling rate) under a controlled scheduler that parks goroutines at every sensor lock operation; all orders of concurrently runnable goroutines up to 2 (quick) / 4 (thorough) deviations; after k completed polls of a constant reading the remaining distance must be <= (1-1/n)^k of the initial one. for each sensor kind x tempRollingWindowSize {1,2,10,50} (cmd {1,10}): every sequence of one seeding read + 3 (quick) / 4 (thorough) polls (cmd: 3 / 4) over the alphabet '
          '{-40000, 0, 35000, 35001, 100000, 1e12} U faults {REAL file content parsed by fan2go itself: missing, empty, whitespace-only, non-numeric, digits followed by text, decimal number; cmd: exit 1, non-numeric, empty output, nan, inf, -inf}. Oracle after every poll: average within the hull of the '
          'initial value and all successful finite readings (relative eps 1e-12), |a\'-c| <= (1-1/n)|a-c| for a reading c, and after a failed or non-finite poll the average is bit-identical and finite. '
